@@ -584,6 +584,12 @@ pub fn generate(rng: &mut Rng) -> Scenario {
                     entries.push(Entry { path: join(&dir, &format!("cyc{i}")), kind: EntryKind::Symlink { target: "..".into() }, mode: None });
                 }
             }
+            4 if rng.chance(1, 2) => {
+                // a link to a link to a file
+                if let Some(prev) = entries.iter().find(|e| e.path.rsplit('/').next().map(|n| n.starts_with("ln") && n.ends_with(".slice")).unwrap_or(false)).map(|e| e.path.clone()) {
+                    entries.push(Entry { path: join(&dir, &format!("ll{i}.slice")), kind: EntryKind::Symlink { target: format!("{up}{prev}") }, mode: None });
+                }
+            }
             4 => entries.push(Entry { path: join(&dir, &format!("dangling{i}.slice")), kind: EntryKind::Symlink { target: "nowhere.slice".into() }, mode: None }),
             _ => entries.push(Entry { path: join(&dir, &format!("loop{i}.slice")), kind: EntryKind::Symlink { target: format!("loop{i}.slice") }, mode: None }),
         }
